@@ -1072,9 +1072,10 @@ impl<'a> CompactionIterator<'a> {
 			&& self.accumulated_versions[0].0.is_hard_delete_marker()
 			&& !any_required_by_snapshot;
 
-		// Check if any version is REPLACE
-		// REPLACE semantics: delete all older versions regardless of retention
-		let has_set_with_delete = self.accumulated_versions.iter().any(|(key, _)| key.is_replace());
+		// REPLACE semantics: delete all older versions regardless of retention.
+		// Only versions older than a REPLACE are affected, so the nearest newer
+		// REPLACE is tracked while walking from the newest version down.
+		let mut nearest_newer_replace: Option<u64> = None;
 
 		// Track the visibility of the previous (newer) version we processed.
 		// Used to detect when a newer version supersedes an older one.
@@ -1105,6 +1106,16 @@ impl<'a> CompactionIterator<'a> {
 
 			let current_visibility = self.find_earliest_visible_snapshot(seq_num)?;
 
+			// A REPLACE erases older versions for the readers that can see it; a
+			// snapshot taken before the REPLACE keeps the history it had.
+			let has_set_with_delete = match (nearest_newer_replace, current_visibility) {
+				(Some(replace_seq), SnapshotVisibility::BoundedBySnapshot(snapshot)) => {
+					replace_seq <= snapshot
+				}
+				(Some(_), _) => true,
+				(None, _) => false,
+			};
+
 			// Check if this version is superseded by a newer version
 			let superseded = if let Some(newer_vis) = newer_version_visibility {
 				// Can we drop superseded versions in this scenario?
@@ -1133,7 +1144,12 @@ impl<'a> CompactionIterator<'a> {
 			// ===== DETERMINE IF ENTRY IS STALE =====
 			// Stale entries are filtered out during compaction
 
-			let should_mark_stale = if superseded {
+			// With versioning enabled a superseded version is merely not needed by
+			// any snapshot; whether it stays is up to the retention policy below
+			// (an open snapshot must not shorten the history of a key).
+			let dropped_as_superseded = superseded && !self.enable_versioning;
+
+			let should_mark_stale = if dropped_as_superseded {
 				// Superseded: a newer version in the same visibility boundary
 				// makes this version redundant - safe to drop
 				true
@@ -1158,7 +1174,7 @@ impl<'a> CompactionIterator<'a> {
 			} else if is_latest && is_replace {
 				// Latest REPLACE: not stale (will be output)
 				false
-			} else if is_hard_delete {
+			} else if is_hard_delete && !self.enable_versioning {
 				// Older DELETE: always stale (only latest tombstone matters)
 				true
 			} else if has_set_with_delete && !is_replace {
@@ -1185,7 +1201,7 @@ impl<'a> CompactionIterator<'a> {
 
 			// ===== DETERMINE IF ENTRY SHOULD BE OUTPUT =====
 
-			let should_output = if superseded {
+			let should_output = if dropped_as_superseded {
 				// Superseded by newer version: don't output
 				false
 			} else if latest_is_delete_at_bottom {
@@ -1208,6 +1224,9 @@ impl<'a> CompactionIterator<'a> {
 
 			// Update for next iteration (this version becomes the "newer" one)
 			newer_version_visibility = Some(current_visibility);
+			if is_replace {
+				nearest_newer_replace = Some(seq_num);
+			}
 		}
 
 		// Clear accumulated versions for the next key
